@@ -15,7 +15,10 @@ import (
 	txstore "github.com/onosproject/onos-config/pkg/store/v2/transaction"
 	"github.com/openconfig/gnmi/proto/gnmi"
 	"github.com/openconfig/gnmi/proto/gnmi_ext"
+	"google.golang.org/grpc/metadata"
 	"google.golang.org/grpc/status"
+
+	sb "github.com/onosproject/onos-config/pkg/southbound/gnmi"
 )
 
 // DelValue is the token that stands for "delete this path" in abstract change maps.
@@ -176,6 +179,99 @@ func (w *World) StartSet(name string, change map[string]map[string]string, sync,
 			}
 		}
 	})
+}
+
+// StartSetRaw begins a Set with an arbitrary request and incoming metadata (identity); it is not fine-grained.
+func (w *World) StartSetRaw(name string, req *gnmi.SetRequest, md map[string]string) (*Handler, error) {
+	h, err := w.newHandler(name, "set", false)
+	if err != nil {
+		return nil, err
+	}
+	if len(md) > 0 {
+		kv := []string{}
+		for k, v := range md {
+			kv = append(kv, k, v)
+		}
+		h.ctx = metadata.NewIncomingContext(h.ctx, metadata.Pairs(kv...))
+	}
+	txv, propv, cfgv, topov, connv := h.views()
+	srv := nbgnmi.NewServerForVerif(topov, txv, propv, cfgv, w.registry, connv, w.opt.SetSizeLimit)
+	err = h.run(func() {
+		defer func() {
+			if r := recover(); r != nil {
+				h.mu.Lock()
+				h.fin, h.OK, h.Code, h.Msg = true, false, -1, fmt.Sprint("panic: ", r)
+				h.mu.Unlock()
+			}
+		}()
+		_, err := srv.Set(h.ctx, req)
+		h.mu.Lock()
+		defer h.mu.Unlock()
+		h.fin = true
+		if err != nil {
+			st, _ := status.FromError(err)
+			h.OK, h.Code, h.Msg = false, int(st.Code()), st.Message()
+			return
+		}
+		h.OK = true
+	})
+	return h, err
+}
+
+// Outcome reports what a handler answered so far.
+func (h *Handler) Outcome() (done bool, ok bool, code int, msg string, txIndex int) {
+	h.mu.Lock()
+	defer h.mu.Unlock()
+	return h.fin, h.OK, h.Code, h.Msg, h.txIndex
+}
+
+// AbandonHandlers forgets every handler (unfinished ones see their client go away).
+func (w *World) AbandonHandlers() {
+	for _, hn := range w.hOrder {
+		h := w.handlers[hn]
+		if !h.finished() {
+			h.lose()
+		}
+	}
+	w.handlers = map[string]*Handler{}
+	w.hOrder = nil
+}
+
+// SetLimit changes GNMI_SET_SIZE_LIMIT for the servers built from now on.
+func (w *World) SetLimit(n int) { w.opt.SetSizeLimit = n }
+
+// Settle waits for the event plumbing to come to rest.
+func (w *World) Settle() error { return w.settle() }
+
+// NBServer returns a gNMI server over ungated views (observations, panics tests).
+func (w *World) NBServer() *nbgnmi.Server { return w.nbServer() }
+
+// NBServerWithConns returns a gNMI server whose connection manager is the given one.
+func (w *World) NBServerWithConns(conns sb.ConnManager) *nbgnmi.Server {
+	p := w.proc
+	return nbgnmi.NewServerForVerif(&topoView{t: w.topo, w: w}, &txView{real: p.tx, w: w}, &propView{real: p.prop, w: w},
+		&cfgView{real: p.cfg, w: w}, w.registry, conns, w.opt.SetSizeLimit)
+}
+
+// AdminServer returns the admin server over ungated views.
+func (w *World) AdminServer() *admin.Server {
+	p := w.proc
+	return admin.NewServerForVerif(&txView{real: p.tx, w: w}, &cfgView{real: p.cfg, w: w}, w.registry)
+}
+
+// TxChange returns the change map (target -> path -> value | DEL) of the transaction with the given index.
+func (w *World) TxChange(index int) (map[string]map[string]string, error) {
+	tx, err := w.obsTx.GetByIndex(context.Background(), configapi.Index(index))
+	if err != nil {
+		return nil, err
+	}
+	return projTx(w, tx).Ch, nil
+}
+
+// TxCount returns the length of the transaction log.
+func (w *World) TxCount() (int, error) {
+	l, err := w.obsTx.List(context.Background())
+	return len(l), err
 }
 
 // StartRollback begins an admin RollbackTransaction(index).
